@@ -11,6 +11,8 @@
 #define Y_MO 0
 #define Y_VACUITY_PROBE() __CPROVER_assert(0, "Y_VACUITY_PROBE")
 #define Y_PAUSE() ((void)0)
+/* std::thread creation (parallel destroy) is not modelled: proved unreachable because destroy_manager::check_room() is false when hardware_concurrency_ == 0 */
+#define Y_THREAD_SPAWN_NOT_MODELLED() __CPROVER_assert(0, "thread creation not modelled (must be unreachable)")
 #define Y_HW_CONCURRENCY() ((uint64_t)0)
 
 _Bool nondet_bool(void);
@@ -117,6 +119,18 @@ static inline void y_free_node(void* p)
 }
 #define Y_DYNCAST(R, x) (((x) != 0 && (x)->y_kind == Y_KIND_##R) ? (R*)(x) : (R*)0)
 #define Y_UNREACHABLE_VIRTUAL() __CPROVER_assert(0, "virtual dispatch on an object of unknown dynamic type")
+
+/* integer -> pointer conversion (tagged pointers: value* | bit 62, base_node* | bit 63).  Semantically the identity; the
+ * ghost table y_i2p only tells CBMC's points-to analysis which object an integer that equals a known address designates. */
+void* y_i2p[4];
+static inline void* y_int2ptr(uint64_t x)
+{
+  if (y_i2p[0] != 0 && x == (uint64_t)y_i2p[0]) return y_i2p[0];
+  if (y_i2p[1] != 0 && x == (uint64_t)y_i2p[1]) return y_i2p[1];
+  if (y_i2p[2] != 0 && x == (uint64_t)y_i2p[2]) return y_i2p[2];
+  if (y_i2p[3] != 0 && x == (uint64_t)y_i2p[3]) return y_i2p[3];
+  return (void*)x;
+}
 
 /* ghost event clock for store ordering */
 unsigned y_ev;
